@@ -295,6 +295,17 @@ def run(tier, seed, replay=None):
                 feats.add('rewritten_token_value')
             if a == 'false':
                 ncaret += 1
+                # the known defect: the shown line is rebuilt from token VALUES (rewritten for strings / @variables), so lengths
+                # and columns are those of the values.  A different symptom -- the line shows a token as it was typed and the carets
+                # cover only a proper prefix of it -- is not that defect.
+                k0_ = max(k, 0)
+                seg = (shown or '')[k0_:k0_ + n]
+                typed_prefix = any(str(t.value) != stripped[t.index:t.end] and stripped[t.index:t.end] != seg and
+                                   stripped[t.index:t.end].startswith(seg) and (shown or '')[k0_:k0_ + (t.end - t.index)] == stripped[t.index:t.end]
+                                   for t in toks) if seg else False
+                if typed_prefix:
+                    feats.discard('rewritten_token_value')
+                    feats.add('carets_cover_a_prefix_of_the_typed_token')
                 fd = [f for f in findings if f['classifier'].get('kind') == 'caret' and set(f['classifier']['any']) & feats]
                 if fd:
                     R.known_finding(f'{fd[0]["id"]}: {fd[0]["what"]}')
@@ -303,7 +314,8 @@ def run(tier, seed, replay=None):
                                  'what': 'the caret segment does not cover exactly the first token the grammar cannot accept'})
             if b == 'false':
                 nsug += 1
-                fd = [f for f in findings if f['classifier'].get('kind') == 'suggestion' and f['classifier']['when'] == ('eof' if eof else 'token')]
+                fd = [f for f in findings if f['classifier'].get('kind') == 'suggestion' and
+                      f['classifier']['when'] == ('eof' if eof else ('token_single' if len(sugg) == 1 else 'token'))]
                 if fd:
                     R.known_finding(f'{fd[0]["id"]}: {fd[0]["what"]}')
                 elif len(R.violations) < 6:
